@@ -15,6 +15,7 @@ EXPLANATION = (
     "C02.R3: no call to an `insecure_*`/`dangerous_*` jsonwebtoken API. C02.R4: `sd_jwt_payload` is written only from `.claims` of that decode's Ok value, `verified_claims` only from the unpacker whose root is `self.sd_jwt_payload`, `_holder_public_key_payload` only from its `cnf`; no &mut borrow of them escapes. "
     "C02.R5: the unverified payload copy flows only into the resolver's `iss` argument."
     " C02.R6: the string stored for signature verification is the presented JWT verbatim (first `~` part / protected.payload.signature however it is concatenated: token normal form) and the payload whose iss feeds the resolver is that token\u2019s payload part; judged on the parsers\u2019 canonical views, so a shared helper that stores the parts is judged with each parser\u2019s arguments. R2 also accepts the algorithm of jsonwebtoken\u2019s own decode_header of the same token."
+    " C02.R6 input-verbatim: on every call path from SDJWTVerifier::new / SDJWTHolder::new to a parser the string handed on is the function's own string parameter through identity conversions only, and inside the parsers the parameter is deserialised / split as it is (rule shared with C10.F2)."
 )
 ASSUMPTIONS = [
     "jsonwebtoken::decode verifies the signature with the given key, rejects a header alg different from Validation's algorithm or of another key family (jsonwebtoken 9.x contract)",
